@@ -194,7 +194,18 @@ func runCLI(c *harness.Ctx) harness.Result {
 			}
 			c.Stat("cli_mixed_sources", 1)
 		}
-		desc := fmt.Sprintf("%s %v %v %v %v srcs=%v %v", f, b, s, ints, floats, srcs, lists)
+		if len(profs) == 1 && r.Intn(40) == 0 {
+			// more sources than pprof fetches in one batch, the last few of them unreadable
+			srcs = nil
+			for len(srcs) < 128 {
+				srcs = append(srcs, "p")
+			}
+			for k, n := 0, 1+r.Intn(3); k < n; k++ {
+				srcs = append(srcs, "missing")
+			}
+			c.Stat("cli_many_sources_failing_tail", 1)
+		}
+		desc := fmt.Sprintf("%s %v %v %v %v srcs=%v %v", f, b, s, ints, floats, harness.Trunc(fmt.Sprint(srcs), 80), lists)
 		tried = append(tried, harness.Trunc(desc, 200))
 		c.Stat("cli_invocations", 1)
 		st := map[string]string{"output": "out"}
@@ -243,6 +254,19 @@ func runCLI(c *harness.Ctx) harness.Result {
 			res.Verdict = harness.Violated
 			res.Detail = fmt.Sprintf("pprof panicked: %s\ninvocation: %s\nprofile:\n%s", harness.Trunc(rr.Panic, 2500), desc, harness.Trunc(p.String(), 2500))
 			res.Sample = tried
+			return res
+		}
+		// an expression that is no regular expression at all is an error for every option that takes
+		// one, whatever the report: pprof must say so rather than go on without the filter
+		badRx := ""
+		for _, k := range []string{"focus", "ignore", "prune_from", "hide", "show", "show_from", "tagshow", "taghide"} {
+			if v, ok := s[k]; ok && (v == "(" || v == "[") {
+				badRx = k + "=" + v
+			}
+		}
+		if badRx != "" && rr.Err == nil {
+			res.Verdict = harness.Violated
+			res.Detail = fmt.Sprintf("pprof produced a report although %s is not a regular expression (no error reported)\ninvocation: %s", badRx, desc)
 			return res
 		}
 		if rr.Err != nil {
